@@ -181,6 +181,10 @@ func (g *Gen) num(sc *scope, d int) node {
 			inner = scope{nums: []string{"g0", "g1", "g2", "i0", "i1", "i2", "i3"}, iters: sc.iters, withs: sc.withs}
 		}
 		var body []node
+		if !direct || r.Intn(3) == 0 {
+			// what `this` is inside the eval code (10.4.2): the caller's for a direct eval, the global object otherwise
+			body = append(body, thisProbes(r.Intn(8))...)
+		}
 		if r.Intn(2) == 0 {
 			init := g.num(&inner, 1)
 			body = append(body, node{"var ev0 = " + init.js + ";", fmt.Sprintf("(JVar %s (Some %s))", cstr("ev0"), init.coq)})
@@ -198,11 +202,12 @@ func (g *Gen) num(sc *scope, d int) node {
 				src.WriteString(n.js + "\n")
 			}
 		}
-		q := strconv.Quote(src.String())
 		if direct {
-			return node{"eval(" + q + ")", "(XEval true " + clist(body) + ")"}
+			return node{"eval(" + strconv.Quote(src.String()) + ")", "(XEval true " + clist(body) + ")"}
 		}
-		return node{"(0, eval)(" + q + ")", "(XEval false " + clist(body) + ")"}
+		// every route to an indirect eval, with every kind of this value handed to it: the code is global code
+		g.Stats["eval-indirect-route"]++
+		return evalVia(r.Intn(nEvalRoutes), g.evalThis(sc), body)
 	case k < 18:
 		if len(sc.objs) > 0 {
 			o := g.objRef(sc)
@@ -618,6 +623,15 @@ func (g *Gen) stmt(sc *scope, labs []lab, loopDepth int, inLoop bool, ind string
 			default:
 				return []node{{"log(SH3());", fmt.Sprintf("(JExpr (XLog (XCall (XVar %s) [])))", cstr("SH3"))}}
 			}
+		case 5:
+			g.Stats["conv-order"]++
+			return g.convTemplate(sc)
+		case 6:
+			g.Stats["dup-params"]++
+			return g.dupTemplate()
+		case 7:
+			g.Stats["eval-this"]++
+			return g.evalThisTemplate(sc)
 		case 1:
 			// a primitive this value: every call (plain, through call/apply, through a bound function) gets its own
 			// fresh wrapper object (10.4.3); state left on one wrapper is not seen by the next call
@@ -857,6 +871,7 @@ func Generate(r *rand.Rand, budget int) Program {
 		node{"function FI() { this.b = 2; this.a = 1; }", "(JFunDecl " + cstr("FI") + " [] [JExpr (XSet XThis " + cstr("b") + " (XLit (WNum 2))); JExpr (XSet XThis " + cstr("a") + " (XLit (WNum 1)))])"},
 		node{"FI.prototype.z = 9;", "(JExpr (XSet (XGet (XVar " + cstr("FI") + ") " + cstr("prototype") + ") " + cstr("z") + " (XLit (WNum 9))))"},
 		node{"var it2 = new FI();", "(JVar " + cstr("it2") + " (Some (XNew (XVar " + cstr("FI") + ") [])))"})
+	stmts = append(stmts, r6Prologue()...)
 	stmts = append(stmts, node{"var sk = {};", "(JVar " + cstr("sk") + " (Some (XObj [])))"},
 		node{"var pb;", "(JVar " + cstr("pb") + " None)"},
 		node{"function RF(a) { var x = a; try { return x; } finally { x = a + 1; log(x); } }",
@@ -1010,6 +1025,20 @@ func Generate(r *rand.Rand, budget int) Program {
 		r.Shuffle(len(battery), func(i, j int) { battery[i], battery[j] = battery[j], battery[i] })
 		stmts = append(stmts, battery[:3+r.Intn(3)]...)
 	}
+	// the conversion-order, repeated-parameter and eval-this templates at top level (always executed), in a third of the programs
+	if r.Intn(3) == 0 {
+		g.Stats["template-battery-r6"]++
+		for i, n := 0, 2+r.Intn(3); i < n; i++ {
+			switch r.Intn(3) {
+			case 0:
+				stmts = append(stmts, g.convTemplate(top)...)
+			case 1:
+				stmts = append(stmts, g.dupTemplate()...)
+			default:
+				stmts = append(stmts, g.evalThisTemplate(top)...)
+			}
+		}
+	}
 	// every way of leaving a `with` body (12.10: the lexical environment is restored "whether normally or by some
 	// form of abrupt completion or exception"): throw caught outside, break and continue of an enclosing loop, break
 	// to a label, throw from a call made inside; afterwards an identifier named like a property of the subject must
@@ -1086,4 +1115,422 @@ func Generate(r *rand.Rand, budget int) Program {
 		}
 	}
 	return Program{JS: js.String(), Coq: clist(all), Stats: g.Stats}
+}
+
+// ---------- round-6 families: conversion order, repeated parameter names, `this` in indirect eval ----------
+func nlit(n int) node    { return node{fmt.Sprintf("%d", n), fmt.Sprintf("(XLit (WNum %d))", n)} }
+func xvar(x string) node { return node{x, "(XVar " + cstr(x) + ")"} }
+func xlog(e node) node   { return node{"log(" + e.js + ")", "(XLog " + e.coq + ")"} }
+func sexpr(e node) node  { return node{e.js + ";", "(JExpr " + e.coq + ")"} }
+func sret(e node) node   { return node{"return " + e.js + ";", "(JReturn (Some " + e.coq + "))"} }
+func sthrow(e node) node { return node{"throw " + e.js + ";", "(JThrow " + e.coq + ")"} }
+func xget(o node, p string) node {
+	return node{o.js + "." + p, fmt.Sprintf("(XGet %s %s)", o.coq, cstr(p))}
+}
+
+var xthis = node{"this", "XThis"}
+var xundef = node{"undefined", "(XLit WUndef)"}
+var xnull = node{"null", "(XLit WNull)"}
+
+func xfun(params []string, body []node) node {
+	var b strings.Builder
+	for _, n := range body {
+		if n.js != "" {
+			b.WriteString(" " + n.js)
+		}
+	}
+	return node{"function (" + strings.Join(params, ", ") + ") {" + b.String() + " }", fmt.Sprintf("(XFun %s %s)", cnames(params), clist(body))}
+}
+
+func xobj(keys []string, vals []node) node {
+	js, cq := make([]string, len(keys)), make([]string, len(keys))
+	for i, k := range keys {
+		js[i] = k + ": " + vals[i].js
+		cq[i] = fmt.Sprintf("(%s, %s)", cstr(k), vals[i].coq)
+	}
+	return node{"({ " + strings.Join(js, ", ") + " })", "(XObj [" + strings.Join(cq, "; ") + "])"}
+}
+
+// try { body } catch (ex) { log(ex); }
+func tryLog(body ...node) node {
+	var b strings.Builder
+	for _, n := range body {
+		b.WriteString(n.js + " ")
+	}
+	return node{"try { " + b.String() + "} catch (ex) { log(ex); }",
+		fmt.Sprintf("(JTry %s (Some (%s, [JExpr (XLog (XVar %s))])) None)", clist(body), cstr("ex"), cstr("ex"))}
+}
+
+// operands of an operator that converts them (ToPrimitive, hint Number: 8.12.8): each conversion is visible through the
+// host call log(tag) it makes, the shared variable it changes, or the exception it throws
+const nConvKinds = 11
+
+func convOperand(kind, tag, n int) node {
+	logT := sexpr(xlog(nlit(tag)))
+	logT1 := sexpr(xlog(nlit(tag + 1)))
+	switch kind {
+	case 1: // valueOf gives the number
+		return xobj([]string{"valueOf"}, []node{xfun(nil, []node{logT, sret(nlit(n))})})
+	case 2: // valueOf throws
+		return xobj([]string{"valueOf"}, []node{xfun(nil, []node{logT, sthrow(nlit(tag))})})
+	case 3: // valueOf gives an object: toString is asked next
+		return xobj([]string{"valueOf", "toString"}, []node{xfun(nil, []node{logT, sret(xthis)}), xfun(nil, []node{logT1, sret(nlit(n))})})
+	case 4: // valueOf is not callable
+		return xobj([]string{"valueOf", "toString"}, []node{nlit(n + 1), xfun(nil, []node{logT, sret(nlit(n))})})
+	case 5: // the inherited valueOf gives the object itself
+		return xobj([]string{"toString"}, []node{xfun(nil, []node{logT, sret(nlit(n))})})
+	case 6: // neither gives a primitive: TypeError
+		return xobj([]string{"valueOf", "toString"}, []node{xfun(nil, []node{logT, sret(xthis)}), xfun(nil, []node{logT1, sret(xthis)})})
+	case 7: // the conversion changes shared state
+		inc := node{"(g0 = g0 + 1)", fmt.Sprintf("(XAssign %s (XBin PAdd (XVar %s) (XLit (WNum 1))))", cstr("g0"), cstr("g0"))}
+		return xobj([]string{"valueOf"}, []node{xfun(nil, []node{sexpr(inc), sret(xvar("g0"))})})
+	case 8:
+		return []node{xundef, xnull, {"true", "(XLit (WBool true))"}}[n%3]
+	case 9: // valueOf gives a primitive: toString must not be called
+		return xobj([]string{"valueOf", "toString"}, []node{xfun(nil, []node{logT, sret(nlit(n))}), xfun(nil, []node{logT1, sret(nlit(0))})})
+	case 10: // valueOf gives undefined (a primitive): NaN
+		return xobj([]string{"valueOf"}, []node{xfun(nil, []node{logT, {"return;", "(JReturn None)"}})})
+	}
+	return nlit(n)
+}
+
+var convOps = [][2]string{{"<", "PLt"}, {">", "PGt"}, {"<=", "PLe"}, {">=", "PGe"}, {"+", "PAdd"}, {"-", "PSub"}, {"*", "PMul"}}
+
+// log(A op B) / x = A; x op= B; log(x), inside try/catch
+func convStmt(op, ka, kb, na, nb int, compound bool, v string) []node {
+	a, b := convOperand(ka, 10, na), convOperand(kb, 20, nb)
+	o := convOps[op]
+	if compound {
+		asg := node{"(" + v + " " + o[0] + "= " + b.js + ")", fmt.Sprintf("(XOpAssign %s %s %s)", o[1], cstr(v), b.coq)}
+		return []node{{"var " + v + " = " + a.js + ";", fmt.Sprintf("(JVar %s (Some %s))", cstr(v), a.coq)},
+			tryLog(sexpr(xlog(asg)), sexpr(xlog(xvar(v)))),
+			{"log(typeof " + v + ");", "(JExpr (XLog (XTypeof (XVar " + cstr(v) + "))))"}}
+	}
+	e := node{"(" + a.js + " " + o[0] + " " + b.js + ")", fmt.Sprintf("(XBin %s %s %s)", o[1], a.coq, b.coq)}
+	return []node{tryLog(sexpr(xlog(e)))}
+}
+
+func (g *Gen) convTemplate(sc *scope) []node {
+	r := g.R
+	kind := func() int {
+		if r.Intn(4) == 0 {
+			return r.Intn(nConvKinds)
+		}
+		return []int{1, 1, 2, 3, 7, 9}[r.Intn(6)]
+	}
+	op := r.Intn(len(convOps))
+	compound := op >= 4 && r.Intn(3) == 0
+	return convStmt(op, kind(), kind(), r.Intn(4), r.Intn(4), compound, "cx")
+}
+
+// a function whose parameter list repeats a name, called with nargs arguments by one of six routes (10.5 step 4.d: every
+// parameter name is SET, in order, to its argument or to undefined, so the last occurrence wins even without an argument)
+var dupPatterns = [][]string{{"a", "a"}, {"a", "b", "a"}, {"a", "a", "b"}, {"b", "a", "a"}, {"a", "a", "a"}, {"a", "b", "b", "a"}}
+
+const nDupRoutes = 6
+
+func dupStmt(pat []string, nargs, route, variant, argIdx int) []node {
+	hasB := false
+	for _, p := range pat {
+		if p == "b" {
+			hasB = true
+		}
+	}
+	var body []node
+	if variant == 2 { // a function declaration of the same name replaces the parameter's value (10.5 step 5)
+		body = append(body, node{"function b() { }", "(JFunDecl " + cstr("b") + " [] [])"},
+			node{"log(typeof b);", "(JExpr (XLog (XTypeof (XVar " + cstr("b") + "))))"})
+	}
+	body = append(body, node{"log(typeof a);", "(JExpr (XLog (XTypeof (XVar " + cstr("a") + "))))"}, sexpr(xlog(xvar("a"))))
+	if hasB && variant != 2 {
+		body = append(body, sexpr(xlog(xvar("b"))))
+	}
+	body = append(body, sexpr(xlog(xget(xvar("arguments"), "length"))))
+	// arguments[i] only where ES5 and otto agree (finding C01-arguments-dup-param: otto aliases an EARLIER occurrence of a
+	// repeated name too): i is not followed by a later parameter of the same name that also received an argument
+	lim := len(pat)
+	if nargs < lim {
+		lim = nargs
+	}
+	var safe []int
+	for i := 0; i < nargs; i++ {
+		ok := true
+		for j := i + 1; j < lim && i < lim; j++ {
+			if pat[j] == pat[i] {
+				ok = false
+			}
+		}
+		if ok {
+			safe = append(safe, i)
+		}
+	}
+	if len(safe) > 0 {
+		i := safe[argIdx%len(safe)]
+		body = append(body, node{fmt.Sprintf("log(arguments[%d]);", i), fmt.Sprintf("(JExpr (XLog (XIdx (XVar %s) (XLit (WNum %d)))))", cstr("arguments"), i)})
+	}
+	if variant == 1 { // a var of the same name changes nothing (10.5 step 8)
+		body = append(body, node{"var a;", "(JVar " + cstr("a") + " None)"})
+	}
+	if route == 4 {
+		body = append(body, node{"this.r = a;", "(JExpr (XSet XThis " + cstr("r") + " (XVar " + cstr("a") + ")))"})
+	} else {
+		body = append(body, sret(xvar("a")))
+	}
+	f := xfun(pat, body)
+	f.js = "(" + f.js + ")"
+	args := make([]node, nargs)
+	for i := range args {
+		args[i] = nlit(i + 1)
+	}
+	mcall := func(o node, m string, as []node) node {
+		return node{o.js + "." + m + "(" + jsArgs(as) + ")", fmt.Sprintf("(XMCall %s %s %s)", o.coq, cstr(m), clist(as))}
+	}
+	var e node
+	switch route {
+	case 0:
+		e = node{f.js + "(" + jsArgs(args) + ")", fmt.Sprintf("(XCall %s %s)", f.coq, clist(args))}
+	case 1:
+		e = mcall(f, "call", append([]node{xnull}, args...))
+	case 2: // apply with an array-like object
+		keys, vals := []string{"length"}, []node{nlit(nargs)}
+		for i, a := range args {
+			keys, vals = append(keys, fmt.Sprintf("%d", i)), append(vals, a)
+		}
+		e = mcall(f, "apply", []node{xundef, xobj(keys, vals)})
+	case 3: // bind with some of the arguments, the rest at the call
+		k := nargs / 2
+		b := mcall(f, "bind", append([]node{xnull}, args[:k]...))
+		e = node{b.js + "(" + jsArgs(args[k:]) + ")", fmt.Sprintf("(XCall %s %s)", b.coq, clist(args[k:]))}
+	case 4:
+		nw := node{"(new " + f.js + "(" + jsArgs(args) + "))", fmt.Sprintf("(XNew %s %s)", f.coq, clist(args))}
+		e = xget(nw, "r")
+	default: // apply handing on the caller's arguments object
+		inner := xfun(nil, []node{sret(mcall(f, "apply", []node{xnull, xvar("arguments")}))})
+		e = node{"(" + inner.js + ")(" + jsArgs(args) + ")", fmt.Sprintf("(XCall %s %s)", inner.coq, clist(args))}
+	}
+	return []node{sexpr(xlog(e))}
+}
+
+func (g *Gen) dupTemplate() []node {
+	r := g.R
+	pat := dupPatterns[r.Intn(len(dupPatterns))]
+	return dupStmt(pat, r.Intn(len(pat)+2), r.Intn(nDupRoutes), r.Intn(3), r.Intn(4))
+}
+
+// globals the eval-this templates rely on
+func r6Prologue() []node {
+	return []node{
+		{"var top = this;", "(JVar " + cstr("top") + " (Some XThis))"},
+		{"var ge = eval;", "(JVar " + cstr("ge") + " None)"}, // the model has no eval VALUE: every use of ge is rendered as an XEval/XEvalVia term
+		{"var hold = { a: 5, g0: 55, run: eval };", fmt.Sprintf("(JVar %s (Some (XObj [(%s, XLit (WNum 5)); (%s, XLit (WNum 55))])))", cstr("hold"), cstr("a"), cstr("g0"))},
+	}
+}
+
+// statements for eval code that show what its `this` is
+func thisProbes(mask int) []node {
+	var out []node
+	if mask&1 == 0 {
+		out = append(out, sexpr(xlog(node{"this === top", "(XBin PSeq XThis (XVar " + cstr("top") + "))"})))
+	}
+	if mask&2 != 0 {
+		out = append(out, node{"log(typeof this);", "(JExpr (XLog (XTypeof XThis)))"})
+	}
+	if mask&4 != 0 {
+		out = append(out, sexpr(xlog(xget(xthis, "a"))))
+	}
+	return out
+}
+
+const nEvalRoutes = 10
+
+// an indirect eval of body reached by route, handed the this value t (which ES5 ignores: 15.1.2.1.1, 10.4.2)
+func evalVia(route int, t node, body []node) node {
+	var src strings.Builder
+	for _, n := range body {
+		if n.js != "" {
+			src.WriteString(n.js + "\n")
+		}
+	}
+	q := strconv.Quote(src.String())
+	via := func(t node) string { return "(XEvalVia " + t.coq + " " + clist(body) + ")" }
+	switch route {
+	case 0:
+		return node{"(0, eval)(" + q + ")", "(XEval false " + clist(body) + ")"}
+	case 1:
+		return node{"ge(" + q + ")", "(XEval false " + clist(body) + ")"}
+	case 2:
+		return node{"ge.call(" + t.js + ", " + q + ")", via(t)}
+	case 3:
+		return node{"ge.apply(" + t.js + ", [" + q + "])", via(t)}
+	case 4:
+		return node{"ge.bind(" + t.js + ")(" + q + ")", via(t)}
+	case 5: // a method call on a holder object built in place (its run field, the eval function, has no counterpart in the model)
+		return node{"({ a: 6, g0: 66, run: ge }).run(" + q + ")", via(xobj([]string{"a", "g0"}, []node{nlit(6), nlit(66)}))}
+	case 6:
+		return node{"eval.call(" + t.js + ", " + q + ")", via(t)}
+	case 7:
+		return node{"eval.apply(" + t.js + ", [" + q + "])", via(t)}
+	case 8:
+		return node{"eval.bind(" + t.js + ")(" + q + ")", via(t)}
+	}
+	return node{"hold.run(" + q + ")", via(xvar("hold"))}
+}
+
+const nEvalThis = 9
+
+func evalThisKind(k int) node {
+	switch k {
+	case 0:
+		return xundef
+	case 1:
+		return xnull
+	case 2:
+		return nlit(5)
+	case 3:
+		return node{"\"s\"", "(XLit (WStr " + cstr("s") + "))"}
+	case 4:
+		return node{"true", "(XLit (WBool true))"}
+	case 5:
+		return xvar("hold")
+	case 6:
+		return xobj([]string{"a", "g0"}, []node{nlit(7), nlit(77)})
+	case 7:
+		return xvar("top")
+	}
+	return xfun(nil, []node{sret(nlit(1))})
+}
+
+func (g *Gen) evalThis(sc *scope) node {
+	if len(sc.objs) > 0 && g.R.Intn(3) == 0 {
+		return g.objRef(sc)
+	}
+	t := evalThisKind(g.R.Intn(nEvalThis))
+	if g.R.Intn(2) == 0 {
+		t = evalThisKind(5 + g.R.Intn(2))
+	}
+	if t.js[0] == 'f' {
+		t.js = "(" + t.js + ")"
+	}
+	return t
+}
+
+func evalThisBody(mask int) []node {
+	body := thisProbes(mask)
+	return append(body, sexpr(xget(xthis, "g0")))
+}
+
+func (g *Gen) evalThisTemplate(sc *scope) []node {
+	r := g.R
+	e := evalVia(r.Intn(nEvalRoutes), g.evalThis(sc), evalThisBody(r.Intn(8)))
+	return []node{sexpr(xlog(e))}
+}
+
+// Pinned returns the deterministic programs that run on every seed: the three families above, exhaustively over
+// operator x operand kinds, parameter pattern x argument count x call route, eval route x this value x calling context.
+func Pinned() []Program {
+	var all [][]node
+	// conversions
+	for op := range convOps {
+		for ka := 0; ka < nConvKinds; ka++ {
+			for kb := 0; kb < nConvKinds; kb++ {
+				all = append(all, convStmt(op, ka, kb, 1+(ka+kb)%3, 2, false, ""))
+			}
+		}
+	}
+	for op := 4; op < len(convOps); op++ {
+		i := 0
+		for ka := 0; ka < nConvKinds; ka++ {
+			for kb := 0; kb < nConvKinds; kb++ {
+				all = append(all, convStmt(op, ka, kb, 1+(ka+kb)%3, 2, true, fmt.Sprintf("cx%d", i%40)))
+				i++
+			}
+		}
+	}
+	// repeated parameter names
+	for pi, pat := range dupPatterns {
+		for nargs := 0; nargs <= len(pat)+1; nargs++ {
+			for route := 0; route < nDupRoutes; route++ {
+				for variant := 0; variant < 3; variant++ {
+					all = append(all, dupStmt(pat, nargs, route, variant, pi+nargs+route))
+				}
+			}
+		}
+	}
+	// this inside indirect eval code
+	for route := 0; route < nEvalRoutes; route++ {
+		for tk := 0; tk < nEvalThis; tk++ {
+			t := evalThisKind(tk)
+			if t.js[0] == 'f' {
+				t.js = "(" + t.js + ")"
+			}
+			for ctx := 0; ctx < 4; ctx++ {
+				e := evalVia(route, t, evalThisBody(6))
+				switch ctx {
+				case 0: // global code
+					all = append(all, []node{sexpr(xlog(e))})
+				case 1: // in a method: the caller's this is another object
+					o := xobj([]string{"a", "m"}, []node{nlit(9), xfun(nil, []node{sret(e)})})
+					all = append(all, []node{sexpr(xlog(node{o.js + ".m()", fmt.Sprintf("(XMCall %s %s [])", o.coq, cstr("m"))}))})
+				case 2: // inside direct eval code
+					inner := sexpr(e)
+					all = append(all, []node{sexpr(xlog(node{"eval(" + strconv.Quote(inner.js) + ")", "(XEval true [" + inner.coq + "])"}))})
+				default: // inside a with whose subject has the same names
+					st := sexpr(xlog(e))
+					all = append(all, []node{{"with (hold) { " + st.js + " }", fmt.Sprintf("(JWith (XVar %s) (JBlock [%s]))", cstr("hold"), st.coq)}})
+				}
+			}
+		}
+	}
+	// a primitive this value is boxed afresh for every call (10.4.3), also through bind/call/apply
+	pt := xvar("PT")
+	mc := func(o node, m string, as ...node) node {
+		return node{o.js + "." + m + "(" + jsArgs(as) + ")", fmt.Sprintf("(XMCall %s %s %s)", o.coq, cstr(m), clist(as))}
+	}
+	seq := func(a, b node) node {
+		return node{a.js + " === " + b.js, fmt.Sprintf("(XBin PSeq %s %s)", a.coq, b.coq)}
+	}
+	for i, p := range []node{nlit(5), {"true", "(XLit (WBool true))"}, {"\"s\"", "(XLit (WStr " + cstr("s") + "))"}, nlit(0)} {
+		v := fmt.Sprintf("pb%d", i)
+		pbc := node{v + "()", fmt.Sprintf("(XCall (XVar %s) [])", cstr(v))}
+		all = append(all, []node{
+			{"var " + v + " = " + mc(pt, "bind", p, nlit(1)).js + ";", fmt.Sprintf("(JVar %s (Some %s))", cstr(v), mc(pt, "bind", p, nlit(1)).coq)},
+			sexpr(xlog(seq(pbc, pbc))),
+			sexpr(xlog(seq(mc(pt, "call", p, nlit(2)), mc(pt, "call", p, nlit(3))))),
+			sexpr(xlog(seq(mc(pt, "apply", p), mc(pt, "call", p)))),
+		})
+	}
+	// a callee that is not callable: the arguments are evaluated before the TypeError (11.2.2, 11.2.3)
+	for _, thrower := range []bool{false, true} {
+		second := xlog(nlit(2))
+		if thrower {
+			second = node{"nowhere()", "(XCall (XVar " + cstr("nowhere") + ") [])"}
+		}
+		as := []node{xlog(nlit(1)), second}
+		for _, callee := range []node{xvar("g1"), xvar("g0"), xget(xvar("hold"), "a")} {
+			all = append(all, []node{tryLog(sexpr(node{callee.js + "(" + jsArgs(as) + ")", fmt.Sprintf("(XCall %s %s)", callee.coq, clist(as))}))},
+				[]node{tryLog(sexpr(node{"new " + callee.js + "(" + jsArgs(as) + ")", fmt.Sprintf("(XNew %s %s)", callee.coq, clist(as))}))})
+		}
+		all = append(all, []node{tryLog(sexpr(mc(xvar("hold"), "g0", as...)))}, []node{tryLog(sexpr(mc(xvar("hold"), "zz", as...)))})
+	}
+	var out []Program
+	const chunk = 40
+	for i := 0; i < len(all); i += chunk {
+		stmts := []node{{"var g0 = 1, g1, g2 = 3;", "(JVar " + cstr("g0") + " (Some (XLit (WNum 1))))"},
+			{"", "(JVar " + cstr("g1") + " None)"}, {"", "(JVar " + cstr("g2") + " (Some (XLit (WNum 3))))"}}
+		stmts = append(stmts, r6Prologue()...)
+		stmts = append(stmts, node{"function PT(v) { var s = this.seen; this.seen = v; log(s); log(typeof this); return this; }",
+			fmt.Sprintf("(JFunDecl %s [%s] [JVar %s (Some (XGet XThis %s)); JExpr (XSet XThis %s (XVar %s)); JExpr (XLog (XVar %s)); JExpr (XLog (XTypeof XThis)); JReturn (Some XThis)])",
+				cstr("PT"), cstr("v"), cstr("s"), cstr("seen"), cstr("seen"), cstr("v"), cstr("s"))})
+		for j := i; j < i+chunk && j < len(all); j++ {
+			stmts = append(stmts, all[j]...)
+		}
+		var js strings.Builder
+		for _, n := range stmts {
+			if n.js != "" {
+				js.WriteString(n.js + "\n")
+			}
+		}
+		out = append(out, Program{JS: js.String(), Coq: clist(stmts), Stats: map[string]int{"pinned-r6": 1}})
+	}
+	return out
 }
